@@ -176,6 +176,15 @@ func (e *Engine) VerifyFunc(fn *ssa.Function, fc *FuncContract) (res *FuncResult
 					lenv.vars[k] = v
 				}
 			}
+			// a named result means the value returned, also where a local of the same name
+			// (err := ...) shadows it at the return statement
+			for ri := 0; ri < fn.Signature.Results().Len(); ri++ {
+				if rn := fn.Signature.Results().At(ri).Name(); rn != "" && rn != "_" {
+					if v, ok := env.vars[rn]; ok {
+						lenv.vars[rn] = v
+					}
+				}
+			}
 			g, err := lenv.evalGoal(a.E)
 			if err != nil {
 				if strings.Contains(err.Error(), "unknown identifier") {
